@@ -85,7 +85,7 @@ def _work(args):
                 obs[0]["observed"] = "OSError"
         else:
             obs = [run_one(case, r, seed)]
-        if opts.get("strip") and case["allowed"] == ["accept"]:
+        if opts.get("strip") and (case["allowed"] == ["accept"] or obs[0]["observed"] == "accept"):      # every ACCEPTED envelope is presented again, stripped to its valid authorized signatures
             obs.append(run_stripped(case, r, seed))
         if opts.get("encodings"):
             for enc in opts["encodings"]:
@@ -104,7 +104,10 @@ def _work(args):
                 res["accepts"] += 1
             if o.get("unjudged"):
                 continue
-            if lib.family(o["observed"]) not in o["allowed"] or o.get("mutated"):
+            if o["variant"] == "stripped" and obs[0]["observed"] == "accept" and o["observed"] != "accept":
+                o["strip_mismatch"] = True      # accepted, but not when reduced to its valid signatures by authorized keys: something else made it pass
+                res["bad"].append(o)
+            elif lib.family(o["observed"]) not in o["allowed"] or o.get("mutated"):
                 res["bad"].append(o)
         trivial = all(v[0] == "absent" for v in case["e"]) and case["alt"][0] == "absent" and case["junk"][0] == "absent"
         res["hashes"].append((hashlib.sha256(line.encode()).hexdigest()[:16], not trivial))
@@ -158,6 +161,12 @@ def sig_of(o):
 
 
 def coarse_sig(o):
+    if o.get("strip_mismatch"):
+        return _coarse_sig({**o, "strip_mismatch": False}) + " - although the envelope as presented was ACCEPTED"
+    return _coarse_sig(o)
+
+
+def _coarse_sig(o):
     c = o["case"]
     return (f"verify_signable[{o['variant']}{'' if o['encoding'] == 'utf-8' else ':' + str(o['encoding'])}] gpg={c['gpg']} "
             f"allowed={'|'.join(c['allowed'])} observed={o['observed']}")
